@@ -2,7 +2,7 @@
 Bridge lemmas for Props/C07: facts about the abstract server world carried over to the model
 of the code.
 -/
-import Desverif.Proofs.ChanInvRun
+import Desverif.Proofs.ChanKernel
 namespace ChanInv
 open Chan (Msg Metrics DropB Eff Fate Err State)
 open ChanSrv (Srv bytes drain exitOf)
@@ -14,6 +14,14 @@ theorem minv {mt : Metrics} {ops : List Op} {w : World State} (h : mrun mt ops =
     ∃ ws, srun mt ops = .ok ws ∧ WR w ws ∧ SInv mt ws := by
   obtain ⟨ws, h1, h2⟩ := mrun_ok h
   exact ⟨ws, h1, h2, srun_SInv h1⟩
+
+/-- … and, if no offered message has jitter, the kernel-order invariant -/
+theorem minvK {mt : Metrics} {ops : List Op} {w : World State} (h : mrun mt ops = .ok w)
+    (hj : ∀ m ∈ w.offered, m.j = 0) :
+    ∃ ws, srun mt ops = .ok ws ∧ WR w ws ∧ SInv mt ws ∧ KInv mt ws := by
+  obtain ⟨ws, h1, h2⟩ := mrun_ok h
+  obtain ⟨hI, hK⟩ := runFrom_Inv mt ops (init_SInv mt) (init_KInv mt) h1 (by rw [← h2.offered]; exact hj)
+  exact ⟨ws, h1, h2, hI, hK⟩
 
 theorem busy_serving {s : State} {a : Srv} (h : R s a) (hb : s.busy = true) :
     a.serving = some s.finish := by
